@@ -18,13 +18,20 @@ attributes, prolog, empty-element forms) for one PDU per string type, with the
 expected value computed in Python; extensible SEQUENCEs decoded by OLDER versions
 of the type (unknown additions) in BER / OER / XER; the extracted reader of XER
 text bodies (entref_step) and OER open-type skipper (skip_step, skips_step)
-against the C: first call on every prefix, value under feeding."""
+against the C: first call on every prefix, value under feeding.
+Third layer (lib/c05w_util.py, coq/Rt/ResumeT.v): module MT5 of members / alternatives /
+elements that tag a REFERENCE in place (tag_mode -1 / +1 in the member table, read back from
+the running code); every definite/indefinite combination per level of each multi-tag chain,
+long forms per level, invalid renderings (verdict must agree); ber_check_tags and
+ber_decode_primitive themselves with tag_mode x last_tag_form against the extracted
+chainm_step / primm_step and against their own one-shot run."""
 import sys, os, re
 sys.path.insert(0, os.path.join(os.path.dirname(os.path.abspath(__file__)), "..", "lib"))
 from vlib import *
 from modcorpus import *
 import c05_util as U
 import c05x_util as X
+import c05w_util as W
 import ext_layer
 
 EXTRA = os.path.join(HARNESS, "moddrv_c05.inc")
@@ -114,6 +121,11 @@ def classify(run, m, c, e, line, o, sw):
             run.violation("oracle:oneshot(%s)" % syn, dict(replay, what="a valid encoding is not decoded one-shot to the value with full consumption (expected OK %d %s)" % (n, c["der"])))
     # ---- 2-chunk splits
     for (s, rc, total, dereq) in sw["badsplit"]:
+        if e.get("fail_code_only") and sw["rc"] == "FAIL" and rc == "FAIL":
+            # an input the one-shot call REJECTS (third layer: contradicting lengths; forms mixed in one chain, open C03 defect): the
+            # property speaks of encodings; what can be asked here is the same verdict, not the octet count of a rejected input
+            # (a nested decoder reports its own count on RC_FAIL, without what its member had taken before starving)
+            continue
         run.violation("oracle:split(%s)" % syn, dict(replay, what="fed as [0,%d)+[%d,%d): %s consumed %d value-equal=%s; one-shot: %s consumed %d"
                                                      % (s, s, n, rc, total, dereq, sw["rc"], sw["consumed"]), split=s))
     # ---- proper prefixes
@@ -157,6 +169,8 @@ def sweep_items(run, m, items, rng, quick, name):
         run.count("sched_" + ("rep" if "*" in sc else "k") + "_feed")
         got = r.split()
         if len(got) == 4 and (got[0], int(got[1]), got[2]) == (sw["rc"], sw["consumed"], sw["der"]):
+            continue
+        if len(got) == 4 and e.get("fail_code_only") and sw["rc"] == "FAIL" and got[0] == "FAIL":
             continue
         if r != "CRASH":
             run.violation("oracle:schedule(%s)" % e["syn"], {"what": "schedule %s: %s; one-shot: %s %d %s" % (sc[:80], r[:200], sw["rc"], sw["consumed"], sw["der"][:80]),
@@ -280,6 +294,168 @@ def ext_part(run, model, xmods, rng, tier):
                               no_input=not any(x.startswith(("X", "O")) for x in got[:-1]))
 
 
+def tagmode_part(run, model, tm, rng, tier, have_model_t=True):
+    """third layer: members / alternatives / elements that tag a REFERENCE in place (tag_mode -1 / +1 in the member table).
+    (1) the member tables of the running code say what the module text demands; (2) every value in BER with every
+    definite/indefinite combination per level of each multi-tag chain, long forms per level, contradicting lengths: sweep of
+    every split + 1-octet feeding + a schedule; one-shot against the reference decoder; (3) ber_check_tags itself with
+    tag_mode -1/0/+1 and last_tag_form -1/0/1 against the extracted ResumeT.chainm_step."""
+    quick = tier == "quick"
+    # ---- (1) member tables
+    exp = W.expected_modes(tm)
+    names = [n for n in exp if exp[n]]
+    o = run_mod(run, tm, ["mtab %s" % n for n in names], "C05-mtab")
+    for n, r in zip(names, o):
+        run.case("mtab " + n)
+        f = r.split()
+        rows = [x.split(":") for x in f[1:]]
+        byname = {x[0]: x for x in rows if len(x) == 5}
+        for (mn, mode, ref) in exp[n]:
+            got = byname.get(mn or "-")
+            want_tags = ".".join(map(str, W.own_tags(tm["trees"][ref]))) or "-"
+            run.count("tagmode_member_%+d" % mode)
+            if got is None or int(got[2]) != mode or got[3] != ref or got[4] != want_tags:
+                run.violation("model:tagmode-table", {"what": "member table of %s, member %s: tag_mode/type/tags %s; the module text demands tag_mode %+d on %s (tags %s)"
+                                                      % (n, mn, got, mode, ref, want_tags), "module": tm["text"], "command_line": "mtab " + n, "c": r[:600]}, no_input=True)
+    # ---- (2) values and their renderings
+    vals = W.directed_values(tm, rng, quick)
+    cases = [{"mod": tm, "tn": tn, "ts": model_str(tm["trees"][tn]), "vs": val_str(v)} for tn, v in vals]
+    rcm, mo, me = run_lines(model, ["der %s %s" % (c["ts"], c["vs"]) for c in cases], timeout=600)
+    if rcm != 0 or len(mo) != len(cases):
+        raise RuntimeError("model driver failed (tagmode der): %s %s" % (rcm, me))
+    items = []
+    for c, d in zip(cases, mo):
+        c["der"] = d
+        if d == "NONE":
+            continue
+        run.count("tagmode_values_" + c["tn"])
+        tree = tm["trees"][c["tn"]]
+        der = bytes.fromhex(d)
+        seen = set()
+        for name, bs, v in U.ber_variants(tree, der, rng, nrand=1 if quick else 3):
+            if bs not in seen:
+                seen.add(bs)
+                items.append((c, {"syn": "ber", "label": "tm:" + name, "hex": bs.hex(), "v": v}))
+        for label, bs, v, fl in W.level_variants(tree, der, rng, quick):
+            if bs in seen:
+                continue
+            seen.add(bs)
+            e = {"syn": "ber", "label": "tm:" + label.split(":")[0].rstrip("0123456789"), "full_label": label, "hex": bs.hex(), "v": v}
+            if fl["mixed"] or fl["invalid"]:
+                e["expect_oneshot_fail"] = e["fail_code_only"] = True
+                e["mixed_chain" if fl["mixed"] else "invalid"] = True
+            items.append((c, e))
+    res = sweep_items(run, tm, items, rng, quick, "C05-tagmode-sweep")
+    ml, meta = [], []
+    for (c, e), sw in zip(items, res):
+        if sw is None:
+            continue
+        if e.get("mixed_chain"):
+            run.count("tagmode_mixed_oneshot_" + sw["rc"])
+        if e.get("invalid"):
+            run.count("tagmode_invalid_oneshot_" + sw["rc"])
+        if U.restart_positions(e["v"]):
+            run.count("tagmode_enc_multi_tag_chain")
+        if e.get("expect_oneshot_fail") or e["v"].segmented or len(e["hex"]) > 1200:
+            continue
+        ml.append("berdec %s %s" % (c["ts"], e["hex"]))
+        meta.append((c, e, sw))
+    rcm, mo, me = run_lines(model, ml, timeout=1200)
+    if rcm != 0 or len(mo) != len(ml):
+        raise RuntimeError("model driver failed (tagmode berdec): %s %s" % (rcm, me))
+    for (c, e, sw), l, r in zip(meta, ml, mo):
+        run.case(l)
+        run.count("model_berdec")
+        f = r.split()
+        exp_ok = f[0] == "OK" and int(f[1]) == sw["n"] and f[2] == c["vs"]
+        c_ok = sw["rc"] == "OK" and sw["consumed"] == sw["n"] and sw["der"] == c["der"]
+        if exp_ok != c_ok and "t" not in c["ts"]:
+            run.violation("correspondence:Rt.berdec", {"what": "one-shot C decoder and the reference decoder of the model disagree", "model_type": c["ts"], "value": c["vs"],
+                                                       "command_line": l[:3000], "model": r[:300], "c": "%s %d %s" % (sw["rc"], sw["consumed"], sw["der"][:200])}, no_input=True)
+    if not have_model_t:
+        return
+    # ---- (3) ber_check_tags with tag_mode / last_tag_form against the extracted machine
+    cl, ml = [], []
+    for ref in ("Inner", "In2", "In3", "Ch", "POct2", "In4"):
+        tags = W.own_tags(tm["trees"][ref])
+        for mode in (1, 0, -1):
+            if mode != 1 and not tags:
+                continue
+            for ltf in (1, -1, 0):
+                for label, bs in W.chain_inputs(tags, mode, ltf, rng, quick):
+                    n = len(bs)
+                    if label[0] in "fw":
+                        scs = [str(n)] + [str(s) for s in range(1, min(n, 14 if quick else 40))] + ["1*", "2*"]
+                    else:
+                        scs = [str(n), "1*", "%d" % rng.range(1, max(1, n - 1)), ",".join(map(str, U.schedules(rng, n, 1)[0]))]
+                    for sc in scs:
+                        cl.append("ctagm %s %d %d %s %s" % (ref, mode, ltf, bs.hex(), sc))
+                        ml.append("chainfeedm 0 %d %d %s %s %s" % (mode, ltf, ",".join(map(str, tags)) or "-", bs.hex(), sc))
+                    run.count("tagmode_chain_inputs_mode%+d" % mode)
+    # ber_decode_primitive under a tag_mode (INTEGER referenced with 1 and 2 own tags) against ResumeT.primm_step
+    pcl, pml = [], []
+    for ref in ("PInt", "PInt2"):
+        tags = W.own_tags(tm["trees"][ref])
+        for mode in (1, 0, -1):
+            for label, bs in W.chain_inputs(tags, mode, 0, rng, quick):
+                n = len(bs)
+                if label[0] in "fw":
+                    scs = [str(n)] + [str(s) for s in range(1, n)] + ["1*", "2*"]
+                else:
+                    scs = [str(n), "1*", "%d" % rng.range(1, max(1, n - 1)), ",".join(map(str, U.schedules(rng, n, 1)[0]))]
+                for sc in scs:
+                    pcl.append("pdecm %s %d %s %s" % (ref, mode, bs.hex(), sc))
+                    pml.append("primfeedm %d %s %s %s" % (mode, ",".join(map(str, tags)), bs.hex(), sc))
+    pco = run_mod_par(run, tm, pcl, "C05-pdecm")
+    rcm, pmo, me = run_lines(model, pml, timeout=1200)
+    if rcm != 0 or len(pmo) != len(pml):
+        raise RuntimeError("model driver failed (primfeedm): %s %s" % (rcm, me))
+    pone = {}
+    for c_, m_, cr, mr in zip(pcl, pml, pco, pmo):
+        run.case(m_)
+        run.count("model_primfeedm")
+        f = c_.split()
+        key = tuple(f[1:4])
+        if f[4] == str(len(f[3]) // 2):
+            pone[key] = cr
+        if cr != mr:
+            run.violation("correspondence:ResumeT.primm_step", {"what": "ber_decode_primitive (tag_mode %s) fed in chunks and the extracted machine disagree: C %s, model %s" % (f[2], cr[:200], mr[:200]),
+                                                                "command_line": m_[:3000], "c_command": c_[:3000]}, no_input=(cr == pone.get(key)))
+        if key in pone and cr != pone[key] and cr != "CRASH":
+            run.violation("oracle:prim-restart(ber)", {"what": "ber_decode_primitive (tag_mode %s) fed %s: %s; one-shot: %s" % (f[2], f[4][:60], cr[:200], pone[key][:200]),
+                                                       "c_command": c_[:3000], "command_line": c_[:3000]})
+    co = run_mod_par(run, tm, cl, "C05-ctagm")
+    rcm, mo, me = run_lines(model, ml, timeout=1200)
+    if rcm != 0 or len(mo) != len(ml):
+        raise RuntimeError("model driver failed (chainfeedm): %s %s" % (rcm, me))
+    # a C that differs from the machine: does it behave like the restart test keyed on tagno (ResumeT.KTagno, refuted for tag_mode +1)?
+    diff = [i for i in range(len(cl)) if co[i] != mo[i] and co[i] != "CRASH"][:60]
+    tagno_like = {}
+    if diff:
+        rck, ko, ke = run_lines(model, ["chainfeedm 1 " + ml[i].split(" ", 2)[2] for i in diff], timeout=600)
+        if rck == 0 and len(ko) == len(diff):
+            tagno_like = {ml[i]: (ko[j] == co[i]) for j, i in enumerate(diff)}
+    oneshot = {}
+    for c_, m_, cr, mr in zip(cl, ml, co, mo):
+        run.case(m_)
+        run.count("model_chainfeedm")
+        f = c_.split()
+        key = tuple(f[1:5])
+        if f[5] == str(len(f[4]) // 2):
+            oneshot[key] = cr
+        if cr != mr:
+            run.violation("correspondence:ResumeT.chainm_step", {"what": "ber_check_tags (tag_mode %s, last_tag_form %s) fed in chunks and the extracted machine disagree: C %s, model %s"
+                                                                 % (f[2], f[3], cr[:200], mr[:200]) +
+                                                                 ("; the C answers what the machine with the restart test keyed on tagno answers (ResumeT.KTagno, C05_chainm_tagno_refuted)" if tagno_like.get(m_) else ""),
+                                                                 "command_line": m_[:3000], "c_command": c_[:3000]},
+                          no_input=(cr == oneshot.get(key)))
+        if key in oneshot and cr != oneshot[key] and cr != "CRASH":
+            # the oracle on the C alone: every schedule delivers the whole input, so the run must end like the one-shot run:
+            # code, consumed, and the context handed to the caller (ctx->left = length or minus the number of 00 00 pairs owed)
+            run.violation("oracle:chain-restart(ber)", {"what": "ber_check_tags (tag_mode %s, last_tag_form %s) fed %s: %s; one-shot: %s" % (f[2], f[3], f[5][:60], cr[:200], oneshot[key][:200]),
+                                                        "c_command": c_[:3000], "command_line": c_[:3000]})
+
+
 OPEN_TYPES = ["00", "0141", "05aabbccddee", "7f" + "11" * 127, "8180" + "22" * 128, "81ff" + "33" * 255, "820100" + "44" * 256, "820003aabbcc", "8400000002beef",
               "80", "8100", "8105aabbccddee", "83000000", "89000000000000000001aa", "8901000000000000000000", "887fffffffffffffffaa", "88ffffffffffffffff", "8a00000000000000000001aa",
               "ff", "85", "8200"]
@@ -394,14 +570,15 @@ def main(tier):
         mods, cases = build_corpus(run, rng, nm, nt, nv, tier, tag="c05", moddrv_extra=EXTRA)
         cm, wm, sm = U.chain_module(), U.wide_module(), X.string_module()
         # the second layer draws from streams of its own: the corpus above stays what it was
-        rng_s, rng_b = Rng(run.seed * 1000003 + 51), Rng(run.seed * 1000003 + 52)
+        rng_s, rng_b, rng_t = Rng(run.seed * 1000003 + 51), Rng(run.seed * 1000003 + 52), Rng(run.seed * 1000003 + 54)
+        tmod = W.tagmode_module()
         xmods = X.ext_modules(Rng(run.seed * 1000003 + 53), tier)
-        build_modules([cm, wm, sm] + xmods, tag="c05x", moddrv_extra=EXTRA)
+        build_modules([cm, wm, sm, tmod] + xmods, tag="c05x", moddrv_extra=EXTRA)
         model = model_build()
     except BuildError as e:
         run.violation("build", {"what": str(e)[-2500:]}, no_input=True)
         return run.finish("proof", (nthm, ndis))
-    for m in mods + [cm, wm, sm] + xmods:
+    for m in mods + [cm, wm, sm, tmod] + xmods:
         if not m.get("exe"):
             run.violation("build:module", {"what": "a valid module was rejected or its code does not compile", "module": m["text"],
                                            "asn1c_out": m.get("asn1c_out", "")[-1200:], "build_log": m.get("build_log", "")[-1200:]})
@@ -642,6 +819,10 @@ def main(tier):
     t_layer = _time.time()
     try:
         ext_part(run, model, xmods, rng_b, tier)
+        if tmod.get("exe"):
+            t_tm = _time.time()
+            tagmode_part(run, model, tmod, rng_t, tier, have_model_t=not os.environ.get("C05_SKIP_T"))
+            run.count("third_layer_tagmode_wall_s", int(_time.time() - t_tm))
         if sm.get("exe"):
             skip_tie(run, model, sm, rng_b)
             entref_tie(run, model, sm, scases, rng_s, quick)
@@ -656,6 +837,7 @@ def main(tier):
           "extraction: ExtrOcamlBasic only; OCaml 4.13.1",
           "harness/moddrv_c05.inc (feeding discipline, sweep of split points) and harness/moddrv.c `chunk` (second implementation of the discipline); lib/c05_util.py (BER variants derived along the type, classifier predicates)",
           "lib/modgen.py (generator, independent X.680 tagging); XER text of the generated corpus and the wide module's values come from the C itself (xer_encode, asn_random_fill)",
+          "lib/c05w_util.py (module MT5, expected member tag modes, per-level BER renderings, header chains for ber_check_tags)",
           "lib/c05x_util.py (values, DER and XER documents of the string module MS5, written independently of the C); lib/extgen.py, lib/ext_layer.py model batches and coq/Rt/Ext.v (expected value of an older reader of an extensible type)",
           "gcc + ASan/UBSan; every window is an exact-size heap block"]
     return run.finish("proof", (nthm, ndis), trusted_base=tb,
@@ -663,7 +845,7 @@ def main(tier):
                       extra_cov={"theorems": names, "modules": len(mods) + 2, "encodings": nenc,
                                  "rule": "one case = one driver command: a sweep (one encoding: one-shot + every/sampled 2-chunk split + every such proper prefix), one chunk schedule through one implementation of the feeding discipline, or one reference-decoder line; distinct command lines",
                                  "traces_validated_against_impl": run.cov["evaluations"]},
-                      assumptions=["machines proved coherent: primitive BER decoder, tag-chain check (any number of tags), XER text-body reader (entity references), OER open-type skipper and its phase-4 loop; SEQUENCE/SET OF/CHOICE bodies, constructed-string stack, the XML tokenizer and the other OER and XER decoders are covered by the tie only (partial)",
+                      assumptions=["machines proved coherent: primitive BER decoder (also under a member's tag_mode), tag-chain check (any number of tags, every tag_mode and last_tag_form), XER text-body reader (entity references), OER open-type skipper and its phase-4 loop; SEQUENCE/SET OF/CHOICE bodies, constructed-string stack, the XML tokenizer and the other OER and XER decoders are covered by the tie only (partial)",
                                    "split points are exhaustive for encodings up to the tier's bound (quick 400, thorough 3000 octets), sampled beyond"])
 
 
